@@ -365,6 +365,42 @@ def census(res, ctx, rng):
         res.count('census_codes_nested', len(todo[b:b + 60]))
 
 
+def tables_in_turn(res, rng, dump, unfiltered):
+    """One front-end object, the SAME filter values, requests made with different code tables in turn (a table that lacks
+    the lookup / string codes, the bundled one by default, the bundled one under other ids): every request selects and
+    decodes as a fresh object does under that request's table - what an earlier request worked out for its table (which
+    records its helpers are, for instance) is not reused."""
+    from pykdebugparser.pykdebugparser import PyKdebugParser
+    bundled = ev.bundled_codes()
+    no_helpers = {k: v for k, v in bundled.items() if not v.startswith(('VFS_', 'TRACE_'))}
+    events2, table2 = ev.relabel(dump['events'], rng)
+    data2 = wire.v2_file(dump['entries'], 8, gen.events_to_records(events2))
+    for classes, subs in (([4], []), ([], [0x040c]), ([4, 3], [])):
+        shared = PyKdebugParser()
+        shared.filter_class, shared.filter_subclass = list(classes), list(subs)
+        plan = [(no_helpers, dump['data']), (None, dump['data']), (table2, data2), (None, dump['data']), (no_helpers, dump['data'])]
+        rng.shuffle(plan)
+        for table, data in plan:
+            fresh = PyKdebugParser()
+            fresh.filter_class, fresh.filter_subclass = list(classes), list(subs)
+            try:
+                want = [str(t) for t in fresh.traces(io.BytesIO(data), table)]
+                got = [str(t) for t in shared.traces(io.BytesIO(data), table)]
+            except Exception as x:
+                res.violation(f'c13-raises-{core.exc_name(x)}', f'tables in turn under classes={classes} subclasses={subs}: {x!r}',
+                              {'file': dump['data']})
+                return
+            res.count('requests_with_tables_in_turn')
+            if got != want:
+                k = next((i for i, (a, b) in enumerate(zip(got, want)) if a != b), min(len(got), len(want)))
+                res.violation('c13-filtered-differs-after-a-request-with-another-table', f'one object, classes={classes} '
+                              f'subclasses={[hex(x) for x in subs]} throughout, requests with different code tables in turn: '
+                              f'trace {k} reads {got[k] if k < len(got) else None!r}, a fresh object under the same table '
+                              f'{want[k] if k < len(want) else None!r} ({len(got)} vs {len(want)} traces)',
+                              {'file': dump['data']})
+                return
+
+
 def wide_nesting(res, ctx, rng):
     """Nesting width: while a BSD call is in flight its thread opens thousands of windows of ids the filter does not admit
     (application signposts that never end).  Filtered and unfiltered runs see very different numbers of open windows; the
@@ -459,6 +495,8 @@ def run(ctx):
             if i % 3 == 0:
                 check_cli(res, rng, dump, cfg)
         check_reconfigured(res, rng, dump, unfiltered)
+        if i % 3 == 0:
+            tables_in_turn(res, rng, dump, unfiltered)
         prev = dump
     census(res, ctx, rng)
     wide_nesting(res, ctx, rng)
@@ -484,6 +522,7 @@ def run(ctx):
     res.require('settings_edited_in_place', 5)
     res.require('census_codes_nested', 2500)
     res.require('wide_nesting_dumps', 4)
+    res.require('requests_with_tables_in_turn', 50)
     res.require('cli_requests_compared', 20)
     res.require('long_capture_traces_selected', 100)
     return res
